@@ -27,6 +27,26 @@ Ltac perm_app :=
   repeat rewrite <- Permutation_middle;
   try reflexivity; try (apply perm_skip; reflexivity).
 
+Ltac pieces l :=
+  lazymatch l with
+  | ?a ++ ?b => let pa := pieces a in let pb := pieces b in constr:(pa ++ pb)
+  | @nil ?T => constr:(@nil (list T))
+  | ?x :: ?t => let pt := pieces t in constr:([x] :: pt)
+  | ?v => constr:([v])
+  end.
+
+(* permutations of lists built from the same blocks with ++ *)
+Ltac perm_blocks :=
+  lazymatch goal with
+  | |- Permutation ?L ?R =>
+      let pl := pieces L in let pr := pieces R in
+      let pl' := eval cbn [app] in pl in
+      let pr' := eval cbn [app] in pr in
+      replace L with (concat pl') by (cbn [concat app]; rewrite ?app_nil_r, <- ?app_assoc; reflexivity);
+      replace R with (concat pr') by (cbn [concat app]; rewrite ?app_nil_r, <- ?app_assoc; reflexivity);
+      apply Permutation_concat; perm_tac
+  end.
+
 (* ------------------------------------------------------------------ facts from the invariant *)
 Lemma allnodes_sel w X s x : In x (sel s X) -> In x (allnodes w X).
 Proof.
@@ -473,25 +493,25 @@ Proof.
 Qed.
 
 (* a_que_die_ then a_list_del_node then a_list_dtor, on the node at position |l1| *)
-Lemma take_ok w X s l1 n l2 :
+Lemma take_rc_ok w X s l1 n l2 :
   QInv w X -> sel s X = l1 ++ n :: l2 ->
-  exists w' r, q_take w s n = Ok (w', r) /\ trace_ok w w' /\
-    ((r = 0 /\ QInv w' X /\ abs w' X = abs w X /\ failed w' = true) \/
-     (r = n /\ QInv w' (upd s (l1 ++ l2) X) /\
+  exists w' rc, q_take_rc w s n = Ok (w', rc) /\ trace_ok w w' /\
+    ((rc <> 0%Z /\ QInv w' X /\ abs w' X = abs w X /\ failed w' = true) \/
+     (rc = 0%Z /\ QInv w' (upd s (l1 ++ l2) X) /\
       abs w' (upd s (l1 ++ l2) X) = upd s (pairs w l1 ++ pairs w l2) (abs w X))).
 Proof.
-  intros I Hsel. unfold q_take.
+  intros I Hsel. unfold q_take_rc.
   assert (Hin : In n (sel s X)) by (rewrite Hsel; apply in_or_app; right; left; reflexivity).
   destruct (die_spec w X s n I Hin) as (w1 & rc & E & T & [(Hrc & Hc & Hf)|(Hrc & Hh & Hv & Hf & Hqo & Hp & Hnum & Hmem)]);
     rewrite E; subst rc; cbn [Z.eqb].
-  - exists w1, 0. split; [reflexivity|]. split; [exact T|]. left.
-    split; [reflexivity|]. split; [eapply same_core_QInv; eauto|]. split; [apply same_core_abs; auto|exact Hf].
+  - exists w1, 4%Z. split; [reflexivity|]. split; [exact T|]. left.
+    split; [discriminate|]. split; [eapply same_core_QInv; eauto|]. split; [apply same_core_abs; auto|exact Hf].
   - pose proof (qi_ring _ _ I s) as R. rewrite Hsel in R.
     destruct (del_node_spec (w_h w) (qaddr s :: l1) n l2 R) as (h1 & E1 & R1 & D1 & F1 & L1); [discriminate|].
     rewrite Hh, E1. cbn [lift].
     assert (Ln : live h1 n) by (apply L1; eapply Ring_live; eauto; right; apply in_or_app; right; left; reflexivity).
     destruct (init_ring h1 n Ln) as (h2 & E2 & R2 & F2 & L2). rewrite E2. cbn [lift].
-    exists (seth w1 h2), n. split; [reflexivity|]. split.
+    exists (seth w1 h2), 0%Z. split; [reflexivity|]. split.
     + intros H. destruct (T H) as [H1 H2]. split; [exact H1|exact H2].
     + right. split; [reflexivity|].
       assert (Hnn : ~ In n ((qaddr s :: l1) ++ l2)).
@@ -505,6 +525,20 @@ Proof.
            apply in_app_or in Hx. apply in_or_app. simpl. tauto.
         -- right. apply in_or_app. right. left. reflexivity.
       * intros x. rewrite L2. apply L1.
+Qed.
+
+Lemma take_ok w X s l1 n l2 :
+  QInv w X -> sel s X = l1 ++ n :: l2 ->
+  exists w' r, q_take w s n = Ok (w', r) /\ trace_ok w w' /\
+    ((r = 0 /\ QInv w' X /\ abs w' X = abs w X /\ failed w' = true) \/
+     (r = n /\ QInv w' (upd s (l1 ++ l2) X) /\
+      abs w' (upd s (l1 ++ l2) X) = upd s (pairs w l1 ++ pairs w l2) (abs w X))).
+Proof.
+  intros I Hsel. unfold q_take.
+  destruct (take_rc_ok w X s l1 n l2 I Hsel) as (w' & rc & E & T & [(Hrc & C)|(Hrc & C)]); rewrite E; cbn [fst snd].
+  - replace (Z.eqb rc 0) with false by (symmetry; apply Z.eqb_neq; exact Hrc).
+    exists w', 0. split; [reflexivity|]. split; [exact T|]. left. split; [reflexivity|exact C].
+  - subst rc. cbn [Z.eqb]. exists w', n. split; [reflexivity|]. split; [exact T|]. right. split; [reflexivity|exact C].
 Qed.
 
 (* ------------------------------------------------------------------ pull_fore / pull_back *)
@@ -1652,6 +1686,11 @@ Proof.
     + intros x. rewrite L2. apply L1.
 Qed.
 
+Lemma rd_next_dget2 h h' x y : dget h' x = dget h y -> rd_next h' x = rd_next h y.
+Proof. unfold rd_next. intros ->. reflexivity. Qed.
+Lemma rd_prev_dget2 h h' x y : dget h' x = dget h y -> rd_prev h' x = rd_prev h y.
+Proof. unfold rd_prev. intros ->. reflexivity. Qed.
+
 Lemma sel_swap {A} (X : A * A) t : sel t (snd X, fst X) = sel (negb t) X.
 Proof. destruct t; reflexivity. Qed.
 
@@ -1718,8 +1757,8 @@ Proof.
   { apply Lv0. apply (QInv_live_sentinel w X s1 I). }
   { congruence. }
   { intros H. exact (proj2 (Hnotb b H) eq_refl). }
-  { rewrite (rd_next_dget h h0) by exact Ha0. apply (Ring_next h [] b xb Rb). }
-  { rewrite (rd_prev_dget h h0) by exact Ha0. apply (Ring_prev h [] b xb Rb). }
+  { rewrite (rd_next_dget2 h h0 a b Ha0). apply (Ring_next h [] b xb Rb). }
+  { rewrite (rd_prev_dget2 h h0 a b Ha0). apply (Ring_prev h [] b xb Rb). }
   change (w_h w1) with h0. rewrite E1.
   (* second move: b takes over the ring of a *)
   assert (Hdisj : forall x, In x xa -> ~ In x (a :: xb)).
@@ -1730,10 +1769,10 @@ Proof.
   { apply L1, Lv0. apply (QInv_live_sentinel w X (negb s1) I). }
   { exact Hab. }
   { intros H. exact (proj1 (Hnota a H) eq_refl). }
-  { rewrite (rd_next_dget h0 h1), (rd_next_dget h h0) by (try exact Hb0; apply F1; intros [E|H];
-      [congruence|exact (proj2 (Hnotb b H) eq_refl)]). apply (Ring_next h [] a xa Ra). }
-  { rewrite (rd_prev_dget h0 h1), (rd_prev_dget h h0) by (try exact Hb0; apply F1; intros [E|H];
-      [congruence|exact (proj2 (Hnotb b H) eq_refl)]). apply (Ring_prev h [] a xa Ra). }
+  { rewrite (rd_next_dget h0 h1) by (apply F1; intros [E|H]; [congruence|exact (proj2 (Hnotb b H) eq_refl)]).
+    rewrite (rd_next_dget2 h h0 b a Hb0). apply (Ring_next h [] a xa Ra). }
+  { rewrite (rd_prev_dget h0 h1) by (apply F1; intros [E|H]; [congruence|exact (proj2 (Hnotb b H) eq_refl)]).
+    rewrite (rd_prev_dget2 h h0 b a Hb0). apply (Ring_prev h [] a xa Ra). }
   rewrite E2. exists (seth w1 h2). split; [reflexivity|]. split; [intros H; split; [exact H|reflexivity]|].
   assert (R1' : Ring h2 (a :: xb)).
   { eapply Ring_Frame; eauto. intros x [<-|Hx] [E|H]; try congruence.
@@ -1758,4 +1797,278 @@ Proof.
       apply (qi_mem _ _ I).
     + rewrite (Permutation_length Hperm). apply (qi_fresh _ _ I).
   - reflexivity.
+Qed.
+
+(* ------------------------------------------------------------------ drop *)
+Lemma skipn_pairs w k l : skipn k (pairs w l) = pairs w (skipn k l).
+Proof. unfold pairs. apply skipn_map. Qed.
+
+Lemma upd_upd {A} s (a b : A) p : upd s a (upd s b p) = upd s a p.
+Proof. destruct s; reflexivity. Qed.
+
+Lemma drop_loop_ok s fuel : forall w X,
+  QInv w X -> (length (sel s X) < fuel)%nat ->
+  exists w' rc k, q_drop_loop w s fuel = Ok (w', rc) /\ trace_ok w w' /\
+    QInv w' (upd s (skipn k (sel s X)) X) /\
+    abs w' (upd s (skipn k (sel s X)) X) = upd s (skipn k (sel s (abs w X))) (abs w X) /\
+    ((rc = 0%Z /\ skipn k (sel s X) = []) \/ (rc <> 0%Z /\ failed w' = true)).
+Proof.
+  induction fuel as [|fuel IH]; intros w X I Hf; [lia|].
+  cbn [q_drop_loop]. pose proof (qi_ring _ _ I s) as R.
+  rewrite (Ring_next _ [] (qaddr s) (sel s X) R). cbn [lift hd].
+  destruct (sel s X) as [|n t] eqn:Hsel.
+  - cbn [hd]. rewrite N.eqb_refl. exists w, 0%Z, 0%nat. split; [reflexivity|]. split; [apply trace_ok_refl|].
+    cbn [skipn]. assert (HX : upd s [] X = X) by (rewrite <- Hsel; apply upd_sel). rewrite HX, upd_sel.
+    split; [exact I|]. split; [reflexivity|]. left. split; reflexivity.
+  - cbn [hd]. rewrite neqb_false.
+    2:{ intros ->. apply (QInv_head_notin w X s I). rewrite Hsel. left. reflexivity. }
+    destruct (take_rc_ok w X s [] n t I Hsel) as (w1 & rc & E & T & [(Hrc & I1 & A1 & F1)|(Hrc & I1 & A1)]);
+      rewrite E; cbn [fst snd].
+    + replace (Z.eqb rc 0) with false by (symmetry; apply Z.eqb_neq; exact Hrc).
+      exists w1, rc, 0%nat. split; [reflexivity|]. split; [exact T|]. cbn [skipn].
+      assert (HX : upd s (n :: t) X = X) by (rewrite <- Hsel; apply upd_sel). rewrite HX, upd_sel.
+      split; [exact I1|]. split; [exact A1|]. right. auto.
+    + subst rc. cbn [Z.eqb app] in *.
+      destruct (IH w1 (upd s t X) I1) as (w2 & rc & k & E2 & T2 & I2 & A2 & C2).
+      { rewrite sel_upd_same. simpl in Hf. lia. }
+      rewrite E2. exists w2, rc, (S k). split; [reflexivity|]. split; [eapply trace_ok_trans; eauto|].
+      rewrite sel_upd_same in I2, A2, C2. rewrite upd_upd in I2, A2. cbn [skipn].
+      split; [exact I2|]. split; [|exact C2].
+      rewrite A2, A1, sel_upd_same, upd_upd, sel_abs, Hsel. cbn [pairs map skipn]. reflexivity.
+Qed.
+
+Lemma drop_ok w X s :
+  QInv w X ->
+  exists w' rc k, q_drop w s = Ok (w', rc) /\ trace_ok w w' /\
+    QInv w' (upd s (skipn k (sel s X)) X) /\
+    abs w' (upd s (skipn k (sel s X)) X) = upd s (skipn k (sel s (abs w X))) (abs w X) /\
+    ((rc = 0%Z /\ skipn k (sel s X) = []) \/ (rc <> 0%Z /\ failed w' = true)).
+Proof. intros I. apply drop_loop_ok; auto using QInv_fuel. Qed.
+
+(* ------------------------------------------------------------------ setz *)
+(* two worlds that differ only in element sizes, schedule and trace *)
+Definition core_eq (w w1 : qworld) : Prop :=
+  w_h w1 = w_h w /\ w_val w1 = w_val w /\ w_fresh w1 = w_fresh w /\
+  forall t, q_pool (getq w1 t) = q_pool (getq w t) /\ q_num (getq w1 t) = q_num (getq w t) /\
+            q_mem (getq w1 t) = q_mem (getq w t).
+
+Lemma core_eq_QInv w w1 X : core_eq w w1 -> QInv w X -> QInv w1 X.
+Proof.
+  intros (Hh & Hv & Hf & Hq) I.
+  assert (Hall : allnodes w1 X = allnodes w X).
+  { unfold allnodes, pools. f_equal. f_equal. f_equal; [apply (Hq false)|apply (Hq true)]. }
+  destruct I. constructor; rewrite ?Hall, ?Hh, ?Hv, ?Hf; auto; intros t; destruct (Hq t) as (E1 & E2 & E3);
+    rewrite ?E1, ?E2, ?E3; auto.
+Qed.
+
+Lemma core_eq_abs w w1 X : core_eq w w1 -> abs w1 X = abs w X.
+Proof.
+  intros (Hh & Hv & _). unfold abs. f_equal; apply pairs_ext; intros x _; unfold val; rewrite Hv; reflexivity.
+Qed.
+
+Lemma core_eq_refl w : core_eq w w.
+Proof. unfold core_eq. repeat split; reflexivity. Qed.
+
+Lemma core_eq_trans w w1 w2 : core_eq w w1 -> core_eq w1 w2 -> core_eq w w2.
+Proof.
+  intros (A1 & A2 & A3 & A4) (B1 & B2 & B3 & B4). unfold core_eq. repeat split; try congruence;
+    destruct (A4 t) as (? & ? & ?), (B4 t) as (? & ? & ?); congruence.
+Qed.
+
+Lemma resize_all_ok nodes size : forall w,
+  let '(w2, ok) := q_resize_all w nodes size in
+  core_eq w w2 /\ trace_ok w w2 /\ (ok = false -> failed w2 = true).
+Proof.
+  induction nodes as [|n r IH]; intros w; cbn [q_resize_all].
+  - split; [apply core_eq_refl|]. split; [apply trace_ok_refl|discriminate].
+  - pose proof (ask_spec w (RResize size)) as A. destruct (ask w (RResize size)) as [w1 ok].
+    destruct A as (Hh & Hv & Hf & Ha & Hb & Ht & Hs).
+    assert (C1 : core_eq w w1).
+    { unfold core_eq. repeat split; auto; destruct t; unfold getq; congruence. }
+    destruct ok.
+    + specialize (IH w1). destruct (q_resize_all w1 r size) as [w2 ok2]. destruct IH as (C2 & T2 & F2).
+      split; [eapply core_eq_trans; eauto|]. split; [|exact F2].
+      eapply trace_ok_trans; [|exact T2]. intros H. destruct (Hs H) as [_ H1]. split; [exact H1|].
+      unfold failed. rewrite Ht. reflexivity.
+    + split; [exact C1|]. split.
+      * intros H. destruct (Hs H). discriminate.
+      * intros _. unfold failed. rewrite Ht. reflexivity.
+Qed.
+
+Lemma setq_siz_core w s z :
+  core_eq w (setq w s (mkQ (q_pool (getq w s)) z (q_num (getq w s)) (q_mem (getq w s)))).
+Proof. unfold core_eq. destruct s; simpl; repeat split; destruct t; reflexivity. Qed.
+
+Lemma setz_ok w X s siz :
+  QInv w X ->
+  exists w' rc k, q_setz w s siz = Ok (w', rc) /\ trace_ok w w' /\
+    QInv w' (upd s (skipn k (sel s X)) X) /\
+    abs w' (upd s (skipn k (sel s X)) X) = upd s (skipn k (sel s (abs w X))) (abs w X) /\
+    ((rc = 0%Z /\ skipn k (sel s X) = []) \/ (rc <> 0%Z /\ failed w' = true)).
+Proof.
+  intros I. unfold q_setz.
+  destruct (drop_ok w X s I) as (w1 & rc & k & E & T & I1 & A1 & C1). rewrite E.
+  destruct C1 as [(Hrc & Hnil)|(Hrc & Hf)].
+  - subst rc. cbn [Z.eqb].
+    set (z := if N.eqb siz 0 then 1 else siz).
+    destruct (N.ltb (q_siz (getq w1 s)) z).
+    + pose proof (resize_all_ok (rev (q_pool (getq w1 s))) (16 + z) w1) as Rz.
+      destruct (q_resize_all w1 (rev (q_pool (getq w1 s))) (16 + z)) as [w2 ok]. destruct Rz as (C2 & T2 & F2).
+      destruct ok.
+      * eexists _, 0%Z, k. split; [reflexivity|].
+        pose proof (setq_siz_core w2 s z) as C3.
+        split; [|split; [|split]].
+        -- eapply trace_ok_trans; [exact T|]. eapply trace_ok_trans; [exact T2|].
+           intros H. split; [destruct s; exact H|destruct s; reflexivity].
+        -- eapply core_eq_QInv; [exact C3|]. eapply core_eq_QInv; eauto.
+        -- rewrite (core_eq_abs _ _ _ C3), (core_eq_abs _ _ _ C2). exact A1.
+        -- left. auto.
+      * exists w2, 4%Z, k. split; [reflexivity|]. split; [eapply trace_ok_trans; eauto|].
+        split; [eapply core_eq_QInv; eauto|]. split; [rewrite (core_eq_abs _ _ _ C2); exact A1|].
+        right. split; [discriminate|auto].
+    + eexists _, 0%Z, k. split; [reflexivity|].
+      pose proof (setq_siz_core w1 s z) as C3.
+      split; [|split; [|split]].
+      * eapply trace_ok_trans; [exact T|]. intros H. split; [destruct s; exact H|destruct s; reflexivity].
+      * eapply core_eq_QInv; eauto.
+      * rewrite (core_eq_abs _ _ _ C3). exact A1.
+      * left. auto.
+  - replace (Z.eqb rc 0) with false by (symmetry; apply Z.eqb_neq; exact Hrc).
+    exists w1, rc, k. split; [reflexivity|]. split; [exact T|]. split; [exact I1|]. split; [exact A1|]. right. auto.
+Qed.
+
+(* ------------------------------------------------------------------ reset (a_que_dtor + a_que_ctor) *)
+Lemma walk_next_spec h c pre l fuel :
+  Ring h (c :: pre ++ l) -> (length l < fuel)%nat -> walk_next h c (hd c l) fuel = Some l.
+Proof.
+  revert pre fuel. induction l as [|a l IH]; intros pre fuel R Hf.
+  - destruct fuel; [lia|]. simpl. rewrite N.eqb_refl. reflexivity.
+  - destruct fuel; [simpl in Hf; lia|]. cbn [walk_next hd].
+    assert (Hac : a <> c).
+    { apply Ring_NoDup in R. inversion R; subst. intros ->. apply H1. apply in_or_app. right. left. reflexivity. }
+    rewrite (neqb_false _ _ Hac).
+    change (c :: pre ++ a :: l) with ((c :: pre) ++ a :: l) in R.
+    rewrite (Ring_next h (c :: pre) a l R). cbn [hd].
+    rewrite (IH (pre ++ [a])); [reflexivity| |simpl in Hf; lia].
+    rewrite <- app_assoc. exact R.
+Qed.
+
+Lemma walk_prev_spec h c l post fuel :
+  Ring h (c :: l ++ post) -> (length l < fuel)%nat -> walk_prev h c (last l c) fuel = Some (rev l).
+Proof.
+  revert post fuel. induction l as [|a l IH] using rev_ind; intros post fuel R Hf.
+  - destruct fuel; [lia|]. simpl. rewrite N.eqb_refl. reflexivity.
+  - rewrite app_length in Hf. simpl in Hf. destruct fuel; [lia|]. rewrite last_last, rev_app_distr.
+    cbn [walk_prev rev app].
+    assert (Hac : a <> c).
+    { apply Ring_NoDup in R. inversion R; subst. intros ->. apply H1. apply in_or_app. left. apply in_or_app.
+      right. left. reflexivity. }
+    rewrite (neqb_false _ _ Hac).
+    rewrite <- app_assoc in R. cbn [app] in R.
+    change (c :: l ++ a :: post) with ((c :: l) ++ a :: post) in R.
+    rewrite (Ring_prev h (c :: l) a post R). rewrite last_cons_default.
+    rewrite (IH (a :: post)); [reflexivity|exact R|lia].
+Qed.
+
+(* what the drivers print is the abstract sequence, forwards and backwards *)
+Lemma ring_of_spec w X s : QInv w X -> ring_of (w_h w) (qaddr s) (fuel_of w) = Some (sel s X).
+Proof.
+  intros I. unfold ring_of. pose proof (qi_ring _ _ I s) as R.
+  rewrite (Ring_next _ [] (qaddr s) (sel s X) R). cbn [hd].
+  apply (walk_next_spec (w_h w) (qaddr s) [] (sel s X)); auto using QInv_fuel.
+Qed.
+
+Lemma ring_of_back_spec w X s : QInv w X -> ring_of_back (w_h w) (qaddr s) (fuel_of w) = Some (rev (sel s X)).
+Proof.
+  intros I. unfold ring_of_back. pose proof (qi_ring _ _ I s) as R.
+  rewrite (Ring_prev _ [] (qaddr s) (sel s X) R). cbn [last].
+  apply (walk_prev_spec (w_h w) (qaddr s) (sel s X) []); auto using QInv_fuel.
+  rewrite app_nil_r. exact R.
+Qed.
+
+Lemma dget_ddel_other h a x : x <> a -> dget (ddel h a) x = dget h x.
+Proof.
+  destruct a, x; simpl; intros; try reflexivity; try congruence. apply PositiveMap.gro. congruence.
+Qed.
+
+Lemma dget_free h ns x : ~ In x ns -> dget (fold_left ddel ns h) x = dget h x.
+Proof.
+  revert h. induction ns as [|a ns IH]; intros h Hx; [reflexivity|]. cbn [fold_left].
+  rewrite IH by (intros H; apply Hx; right; exact H). apply dget_ddel_other. intros ->. apply Hx. left. reflexivity.
+Qed.
+
+Lemma vget_vdel_other m a x : x <> a -> vget (vdel m a) x = vget m x.
+Proof.
+  destruct a, x; simpl; intros; try reflexivity; try congruence. apply PositiveMap.gro. congruence.
+Qed.
+
+Lemma vget_free m ns x : ~ In x ns -> vget (fold_left vdel ns m) x = vget m x.
+Proof.
+  revert m. induction ns as [|a ns IH]; intros m Hx; [reflexivity|]. cbn [fold_left].
+  rewrite IH by (intros H; apply Hx; right; exact H). apply vget_vdel_other. intros ->. apply Hx. left. reflexivity.
+Qed.
+
+Lemma reset_ok w X s size :
+  QInv w X ->
+  exists w', q_reset w s size = Ok w' /\ trace_ok w w' /\
+    QInv w' (upd s [] X) /\ abs w' (upd s [] X) = upd s [] (abs w X).
+Proof.
+  intros I. unfold q_reset. rewrite (ring_of_spec w X s I).
+  set (ns := q_pool (getq w s) ++ sel s X). set (w0 := free_nodes w ns).
+  set (c := qaddr s).
+  assert (Hns : forall x, In x ns -> In x (allnodes w X)).
+  { intros x Hx. unfold ns in Hx. apply in_app_or in Hx. destruct Hx; [eapply allnodes_pool|eapply allnodes_sel]; eauto. }
+  assert (Hc : ~ In c ns) by (intros H; apply (QInv_sentinel_notin w X s I); auto).
+  assert (Hh0 : forall x, ~ In x ns -> dget (w_h w0) x = dget (w_h w) x) by (intros x Hx; apply dget_free; exact Hx).
+  assert (Lc : live (w_h w0) c).
+  { unfold live. rewrite Hh0 by exact Hc. apply (QInv_live_sentinel w X s I). }
+  unfold q_ctor. destruct (init_ring (w_h w0) c Lc) as (h' & E & R' & F & Lv). fold c. rewrite E. cbn [lift].
+  set (z := if N.eqb size 0 then 1 else size).
+  set (w' := setq (seth w0 h') s (mkQ [] z 0 0)).
+  exists w'. split; [reflexivity|]. split.
+  { intros H. split; [unfold no_fault, w', w0; destruct s; exact H|unfold failed, w', w0; destruct s; reflexivity]. }
+  assert (Hh' : w_h w' = h') by (unfold w'; destruct s; reflexivity).
+  assert (Hv' : w_val w' = fold_left vdel ns (w_val w)) by (unfold w'; destruct s; reflexivity).
+  assert (Hf' : w_fresh w' = w_fresh w) by (unfold w'; destruct s; reflexivity).
+  assert (Hqs : getq w' s = mkQ [] z 0 0) by (unfold w'; apply getq_setq_same).
+  assert (Hqo : getq w' (negb s) = getq w (negb s)) by (unfold w'; rewrite getq_setq_other; destruct s; reflexivity).
+  assert (Hperm : Permutation (allnodes w X) (ns ++ allnodes w' (upd s [] X))).
+  { unfold allnodes, pools, ns. change (w_qa w') with (getq w' false). change (w_qb w') with (getq w' true).
+    destruct s; cbn [negb] in Hqo; rewrite Hqs, Hqo; cbn [sel upd fst snd q_pool getq]; perm_blocks. }
+  assert (ND : NoDup (ns ++ allnodes w' (upd s [] X))) by (eapply Permutation_NoDup; [exact Hperm|apply (qi_nodup _ _ I)]).
+  assert (Hkeep : forall x, In x (allnodes w' (upd s [] X)) -> In x (allnodes w X) /\ ~ In x ns).
+  { intros x Hx. split.
+    - eapply Permutation_in; [symmetry; exact Hperm|]. apply in_or_app. right. exact Hx.
+    - intros H. eapply NoDup_app_disj; eauto. }
+  split.
+  - constructor; rewrite ?Hh', ?Hv', ?Hf'.
+    + intros t. destruct (bool_cases s t) as [->| ->].
+      * rewrite sel_upd_same. exact R'.
+      * rewrite sel_upd_other. eapply Ring_Frame; [|exact F|].
+        -- eapply (Ring_Frame _ _ ns); [apply (qi_ring _ _ I (negb s))| |].
+           ++ intros x Hx. apply Hh0. exact Hx.
+           ++ intros x Hx Hin. destruct Hx as [<-|Hx].
+              ** apply Hns in Hin. eapply QInv_sentinel_notin; eauto.
+              ** assert (H : In x (allnodes w' (upd s [] X))).
+                 { unfold allnodes. rewrite <- (sel_upd_other s [] X) in Hx.
+                   destruct s; cbn [negb sel upd fst snd] in *; apply in_or_app; [left|right; apply in_or_app; left]; exact Hx. }
+                 eapply NoDup_app_disj; eauto.
+        -- intros x Hx [<-|[]]. eapply (QInv_rings_disj' w X s c I); eauto. left. reflexivity.
+    + eapply NoDup_app_r; eauto.
+    + intros x Hx. destruct (Hkeep x Hx) as [Hin Hnot].
+      pose proof (qi_node _ _ I x Hin) as (B & L & V). split; [exact B|]. split.
+      * apply Lv. unfold live. rewrite Hh0 by exact Hnot. exact L.
+      * rewrite vget_free by exact Hnot. exact V.
+    + intros t. destruct (bool_cases s t) as [->| ->].
+      * rewrite Hqs, sel_upd_same. reflexivity.
+      * rewrite Hqo, sel_upd_other. apply (qi_num _ _ I).
+    + intros t. destruct (bool_cases s t) as [->| ->].
+      * rewrite Hqs. cbn. lia.
+      * rewrite Hqo. apply (qi_mem _ _ I).
+    + pose proof (qi_fresh _ _ I) as Fr. rewrite (Permutation_length Hperm), app_length in Fr. lia.
+  - rewrite abs_upd. cbn [pairs map].
+    assert (Habs : abs w' (upd s [] X) = abs w (upd s [] X)).
+    { unfold abs. f_equal; apply pairs_ext; intros x Hx; unfold val; rewrite Hv'; rewrite vget_free; auto;
+        apply Hkeep; unfold allnodes; apply in_or_app; [left|right; apply in_or_app; left]; exact Hx. }
+    rewrite !abs_upd in Habs. exact Habs.
 Qed.
